@@ -82,7 +82,12 @@ def backlog(ctx):
     cc = lib.run_go(ctx, "multiplex", "TestVerifMuxCloseVsCloseRace", timeout=900, tag="close_vs_close")
     lib.collect_go(ctx, cc)
     ctx.log("close-vs-close race: %d rounds, %d violations" % (cc["stats"].get("rounds", 0), len(cc.get("violations", []))))
-    return {"evaluations": res["evaluations"] + race["evaluations"] + cc["evaluations"], "close_vs_close_rounds": cc["stats"].get("rounds", 0),
+    # a sender stalled in one connection while the peer's closing frame for its stream arrives on another (StreamClose.tla,
+    # PassiveNeverWaitsForSender): the receive loop must stay free, or a later fault on that connection is never seen
+    qd = lib.run_go(ctx, "multiplex", "TestVerifC03Queued", timeout=900, tag="queued", prefixes=("c03", "shared"))
+    lib.collect_go(ctx, qd)
+    ctx.log("stalled sender vs peer's close: %d scenarios, %d violations" % (qd["evaluations"], len(qd.get("violations", []))))
+    return {"evaluations": res["evaluations"] + race["evaluations"] + cc["evaluations"] + qd["evaluations"], "close_vs_close_rounds": cc["stats"].get("rounds", 0),
             "distinct_nontrivial": res["distinct_nontrivial"] + race["distinct_nontrivial"],
             "samples": res["samples"][:1] + race["samples"][:1], "traces": res["evaluations"] + race["evaluations"]}
 
